@@ -717,3 +717,8 @@ pub fn finish(mut rep: Report, tier: Tier, seed: u64, wall_s: f64) -> i32 {
 pub fn root() -> String {
     std::env::var("VERIF_ROOT").unwrap_or_else(|_| "/verif".into())
 }
+
+/// Resident set size of this process in bytes (0 if /proc is unavailable).
+pub fn rss_bytes() -> usize {
+    std::fs::read_to_string("/proc/self/statm").ok().and_then(|s| s.split_whitespace().nth(1).and_then(|x| x.parse::<usize>().ok())).map(|pages| pages * 4096).unwrap_or(0)
+}
